@@ -341,7 +341,10 @@ class Agent(dbus.service.Object):
         try:
             ctr = self._fwd_queue.pop(0)
 
-            for blk in tuple(ctr.block_type(PreviousNodeBlock)):
+            # by type code: a block whose data cannot be decoded here (unknown
+            # EID scheme, encrypted) is replaced all the same
+            prev_type = PreviousNodeBlock._overload_fields[CanonicalBlock]['type_code']
+            for blk in tuple(ctr.block_type(prev_type)):
                 ctr.remove_block(blk)
             ctr.add_block(CanonicalBlock() / PreviousNodeBlock(node=self._config.node_id))
 
@@ -350,7 +353,8 @@ class Agent(dbus.service.Object):
                 # force the block-type-specific data to be encoded again
                 blk.delfieldval('btsd')
 
-            for blk in tuple(ctr.block_type(BundleAgeBlock)):
+            age_type = BundleAgeBlock._overload_fields[CanonicalBlock]['type_code']
+            for blk in tuple(ctr.block_type(age_type)):
                 ctr.remove_block(blk)
             create_dtntime = ctr.bundle.primary.create_ts.getfieldval('dtntime')
             if create_dtntime != 0:
